@@ -15,9 +15,9 @@ import (
 
 func init() {
 	Register(&Spec{
-		ID: "C20",
+		ID:          "C20",
 		Explanation: "Decides structural necessary conditions of faithful, history-independent text rendering: (R1) the escape predicate of strquote touches its byte only through comparisons with constants, so it is evaluated over all 256 byte values by constant folding on the SSA form: it must hold for the double quote, the backslash, every byte below 0x20 and every byte from 0x7f, every case constant of Append's escape switch must lie inside the set (a case the guard excludes is dead code contradicting the author's belief), and every byte in the set is emitted through an escape sequence; (R2) no error of the schema-driven marshal functions or of the capnp accessors they call is dropped (named exemptions for trusted default values); (R3) a message obtained from Unmarshal/Decode whose contents are cached beyond the call (nodemap) has its traversal limit lifted or re-armed before it is stored; (R4) the schema walker accesses a field only for the active union member, uses the accessor width and offset scale of the schema type table with the default XORed in, renders every Text/Data through strquote.Append on a scratch buffer reset to length 0. Does NOT decide injectivity of the whole rendering or float formatting.",
-		Run: runC20,
+		Run:         runC20,
 	})
 }
 
@@ -48,9 +48,9 @@ func runC20(ctx *Ctx) {
 }
 
 var textErrExempt = map[string]string{
-	"encoding/text.(*Encoder).EncodeList | NewMessage":        "fresh single-segment arena cannot fail",
-	"encoding/text.(*Encoder).EncodeList | NewRootType":       "allocation in a fresh message; a failure yields an invalid type that marshalList rejects",
-	"encoding/text.(*Encoder).marshalFieldValue | Name":       "name is used only inside an error message",
+	"encoding/text.(*Encoder).EncodeList | NewMessage":         "fresh single-segment arena cannot fail",
+	"encoding/text.(*Encoder).EncodeList | NewRootType":        "allocation in a fresh message; a failure yields an invalid type that marshalList rejects",
+	"encoding/text.(*Encoder).marshalFieldValue | Name":        "name is used only inside an error message",
 	"encoding/text.(*Encoder).marshalFieldValue | StructValue": "schema default values come from the compiled-in registry (trusted); an unreadable default renders as the zero value",
 	"encoding/text.(*Encoder).marshalFieldValue | Data":        "schema default value (trusted); unreadable renders as empty",
 	"encoding/text.(*Encoder).marshalFieldValue | TextBytes":   "schema default value (trusted); unreadable renders as empty",
@@ -338,7 +338,30 @@ func ruleCachedBudget(ctx *Ctx, rule string) {
 					for _, in2 := range b2.Instrs {
 						if st, ok := in2.(*ssa.Store); ok {
 							if fa, ok := st.Addr.(*ssa.FieldAddr); ok && fa.X == msg && ssaq.FieldVar(fa).Name() == "TraverseLimit" && ssaq.DominatesInstr(in2, cacheAt) {
-								lifted = true
+								// The field is read once, when the message is first read
+								// (sync.Once in initReadLimit): the assignment only takes
+								// effect if it comes before every read of the message.
+								early := true
+								for _, b3 := range f.Blocks {
+									for _, in3 := range b3.Instrs {
+										c3, isCall := in3.(*ssa.Call)
+										if !isCall || in3 == ssa.Instruction(call) {
+											continue
+										}
+										uses := false
+										for _, a := range c3.Call.Args {
+											if taint[a] {
+												uses = true
+											}
+										}
+										if uses && !ssaq.DominatesInstr(in2, in3) {
+											early = false
+										}
+									}
+								}
+								if early {
+									lifted = true
+								}
 							}
 						}
 						if c2, ok := in2.(*ssa.Call); ok && ssaq.StaticCalleeName(c2) == "capnp.(*Message).ResetReadLimit" && c2.Call.Args[0] == msg && ssaq.DominatesInstr(in2, cacheAt) {
